@@ -44,9 +44,12 @@ def _cfgs(depth, quick):
                 out.append((fmts, default, shaped))
     out.append((("C",) * depth, 0, "filled"))
     out.append((("U",) * depth, 7, "filled"))
+    # a float leaf default (its box is a box like any other: a result may not hold the operand's)
+    out.append((("C",) * depth, 0.5, True))
+    out.append((("U",) * depth, 0.5, False))
     if quick:
         return [(("C",) * depth, 0, True), (("U",) * depth, 7, False), (("C",) * depth, 7, True)][:2 if depth == 3 else 3] + \
-            ([(("C",) * depth, 0, "filled")] if depth == 2 else [])
+            ([(("C",) * depth, 0, "filled"), (("C",) * depth, 0.5, True)] if depth == 2 else [])
     return out
 
 
